@@ -5,6 +5,7 @@ import (
 	"os"
 	"sort"
 	"strings"
+	"time"
 
 	"verif/internal/core"
 )
@@ -100,6 +101,11 @@ func runGen(prop, tier string, sc *core.Scratch, ev *core.Evidence, rep *core.Re
 	cases := corporaFor(prop, tier)
 	if len(cases) == 0 {
 		return 2, core.Infra("no corpus for %s", prop)
+	}
+	if prop == "C11" || prop == "C14" {
+		if err := designLevel(sc, ev, rep); err != nil {
+			return 2, err
+		}
 	}
 	violations, accepted, err := EvaluateCases(prop, prop, cases, sc, ev, rep)
 	if err != nil {
@@ -456,4 +462,25 @@ func sample(l []*Case, every int) []*Case {
 		}
 	}
 	return out
+}
+
+// designLevel runs spec/GenMC.tla: the Registry model over its own universe of
+// import paths, exhaustively, all map-order choices included.
+func designLevel(sc *core.Scratch, ev *core.Evidence, rep *core.Reporter) error {
+	res, err := core.RunTLC(sc, &core.TLCOpts{Module: "GenMC", Cfg: "GenMC.cfg", Workers: 1, Timeout: 20 * time.Minute, Deadlock: true})
+	if err != nil {
+		return err
+	}
+	l := core.PrintedLines(res.Output, "GENMC ")
+	if len(l) != 1 {
+		return core.Infra("GenMC printed no summary:\n%s", core.Tail(res.Output, 20))
+	}
+	var n, div, dup, nonconf int
+	fmt.Sscan(l[0], &n, &div, &dup, &nonconf)
+	ev.AddTLC("GenMC (design level: ordered selections of up to 3 of 12 adversarial packages)", res)
+	ev.Set("design_level_registry", map[string]int{"inputs": n, "diverge": div, "duplicate_qualifier": dup, "outcome_depends_on_map_order": nonconf})
+	if res.Violated || nonconf > 0 {
+		rep.DriftNote(fmt.Sprintf("design level: the Registry model is not confluent for %d of %d inputs (candidate for C14; the verdict comes from repeated real generations)", nonconf, n))
+	}
+	return nil
 }
